@@ -113,6 +113,8 @@ def memcheck_sample(chk, n):
                                  util.Rng(case["seed"], "emit"))
         if not b.ok:
             continue
+        if "dangerous trailing context" in b.warnings:
+            continue        # exempt by the manual (as in the checks the job comes from)
         inp = job["inputs"][0]
         ci = stream.with_input(c2, inp)
         from .. import emit
